@@ -438,6 +438,7 @@ class HttpProxyPlugin(HttpProtocolHandlerPlugin):
                 not self.request.is_https_tunnel or self._tls_intercept_enabled
             ):
                 if self.pipeline_request is not None and \
+                        self.pipeline_request.is_complete and \
                         self.pipeline_request.is_connection_upgrade:
                     # Previous pipelined request was a WebSocket
                     # upgrade request. Incoming client data now
